@@ -43,6 +43,49 @@ class MachineryError(Exception):
     """Exit code 2: the framework itself could not run (never a VIOLATION)."""
 
 
+class HangError(Exception):
+    """The code under test did not return within the time limit of `time_limit` (an observation, like any exception)."""
+
+
+_hangs = 0          # per process: how often a time limit expired
+
+
+def hangs_seen() -> int:
+    return _hangs
+
+
+class time_limit:
+    """`with time_limit(10): real_code()` — raises HangError inside the block when it runs longer (SIGALRM, so main thread
+    of the process only: elsewhere it is a no-op).  A harness calls the real code under a limit wherever a changed tree
+    could loop for ever; the expiry is an observation about the code (`err internal`), never a crash of the harness.
+    After a few expiries in one process the callers may stop feeding it cases (`hangs_seen()`): one failing input is enough."""
+
+    def __init__(self, seconds: float):
+        self.seconds = seconds
+        self.armed = False
+
+    def _fire(self, signum, frame):
+        global _hangs
+        _hangs += 1
+        raise HangError(f"no result within {self.seconds} s")
+
+    def __enter__(self):
+        import signal
+        import threading
+        if threading.current_thread() is threading.main_thread():
+            self.old = signal.signal(signal.SIGALRM, self._fire)
+            signal.setitimer(signal.ITIMER_REAL, self.seconds)
+            self.armed = True
+        return self
+
+    def __exit__(self, *a):
+        if self.armed:
+            import signal
+            signal.setitimer(signal.ITIMER_REAL, 0)
+            signal.signal(signal.SIGALRM, self.old)
+        return False
+
+
 def use_repo():
     """Make `import pyrtma` resolve to the working tree under test, not to an installed copy."""
     src = str(REPO / "src")
@@ -409,6 +452,77 @@ def finish(res: Result, build_ok: bool, build_log: str, aud: Dict[str, Any], lev
     EVIDENCE.mkdir(exist_ok=True)
     (EVIDENCE / f"{prop}.json").write_text(json.dumps(ev, indent=1, default=repr))
     return exit_code
+
+
+# --------------------------------------------------------------------------------------
+# running the real code in a child process (an interpreter killed by the code under test still ends in a verdict)
+# --------------------------------------------------------------------------------------
+
+_CRUMB = None          # anonymous shared mapping: the child writes the case it is about to run, the parent reads it
+
+
+def crumb(obj: Any):
+    """announce the case that is run next (cheap: one write into shared memory; a no-op outside `run_isolated`)"""
+    if _CRUMB is None:
+        return
+    try:
+        b = json.dumps(obj, default=repr).encode()[:len(_CRUMB) - 8]
+    except Exception:  # noqa: BLE001
+        return
+    _CRUMB[4:4 + len(b)] = b
+    _CRUMB[0:4] = len(b).to_bytes(4, "little")
+
+
+def run_isolated(decide: Callable[[], int], res: Result) -> int:
+    import mmap
+    import signal
+    import tempfile
+    global _CRUMB
+    _CRUMB = mmap.mmap(-1, 1 << 20)
+    fh = tempfile.TemporaryFile(mode="w+")
+    sys.stdout.flush()
+    sys.stderr.flush()
+    pid = os.fork()
+    if pid == 0:
+        code = 2
+        try:
+            import faulthandler
+            faulthandler.enable(file=fh, all_threads=False)
+            code = decide()
+        except BaseException:  # noqa: BLE001
+            import traceback
+            traceback.print_exc()
+        finally:
+            sys.stdout.flush()
+            sys.stderr.flush()
+            os._exit(code)
+    _, status = os.waitpid(pid, 0)
+    if not os.WIFSIGNALED(status):
+        return os.WEXITSTATUS(status)
+    sig = os.WTERMSIG(status)
+    if sig not in (signal.SIGSEGV, signal.SIGABRT, signal.SIGBUS, signal.SIGILL, signal.SIGFPE):
+        print(f"machinery failure: the run was killed by signal {sig}")      # (killed from outside, out of memory, ...)
+        return 2
+    n = int.from_bytes(_CRUMB[0:4], "little")
+    try:
+        last = json.loads(bytes(_CRUMB[4:4 + n]).decode()) if n else None
+    except Exception:  # noqa: BLE001
+        last = None
+    fh.seek(0)
+    where = fh.read()[-3000:]
+    name = signal.Signals(sig).name
+    what = (f"tie: the code under test killed the interpreter ({name}) while the harness ran it - the model never "
+            f"crashes; memory was written outside the message (the case announced last may not be the one that did it)")
+    body = {"kind": "no-failing-input-found", "no_longer_checks": [what],
+            "first_corr_diff": {"name": "corr:interpreter-crash", "diff": name, "case": last}, "python_stack": where}
+    path = write_replay(res.prop, res.seed, body)
+    print(f"VIOLATION property={res.prop} replay={path} no-failing-input-found")
+    ev = {"property_id": res.prop, "tier": res.tier, "seed": res.seed, "level": "proof",
+          "coverage": {"broken": [what], "evaluations": 0, "obligations": max(len(prop_theorems(res.prop)), 1), "discharged": 0},
+          "assumptions": [], "wall_s": round(time.time() - res.t0, 2), "violations": 1}
+    EVIDENCE.mkdir(exist_ok=True)
+    (EVIDENCE / f"{res.prop}.json").write_text(json.dumps(ev, indent=1, default=repr))
+    return 1
 
 
 # --------------------------------------------------------------------------------------
